@@ -204,6 +204,19 @@ def oracle(ctx, idnt, meta, step, opts, b, a, det):
         if abs(a["tip position"][cpid]) > 1e-12 * scale:
             ctx.violation(f"tip-not-zero-at-contact:{method}", f"tip position at the estimated contact index {cpid} "
                           f"({method}) is {a['tip position'][cpid]!r}, not zero", rep)
+        # "the estimated contact index" is also what the curve itself reports for this method
+        try:
+            with warnings.catch_warnings():
+                warnings.simplefilter("ignore")
+                own = int(idnt.estimate_contact_point_index(method=method))
+        except BaseException as e:  # noqa
+            own = None
+            ctx.violation(f"estimate-raises:{method}", f"estimate_contact_point_index({method}) raises {e!r} on a "
+                          "preprocessed well-formed curve", rep)
+        if own is not None and abs(a["tip position"][own]) > 1e-12 * scale:
+            ctx.violation(f"tip-not-zero-at-own-estimate:{method}", f"after correct_tip_offset({method}) the curve's own "
+                          f"estimate_contact_point_index({method}) is {own} (compute_poc on the force column: {cpid}); "
+                          f"the tip position there is {a['tip position'][own]!r}, not zero", rep)
     elif step == "correct_force_slope":
         o = opts.get("correct_force_slope", {})
         region, strategy = o.get("region", "baseline"), o.get("strategy", "shift")
